@@ -16,6 +16,16 @@ CHECKS = {
         note=TRUST + "differentiation rule table (cross-checked with sympy), laws of real powers on positive bases (each use emits a base>0 obligation), "
              "admissibility conditions listed in contracts/C03.py (R>0, b>0 given explicitly, rmin>0 for Exp, HandyMod pole-free condition).",
         technique="contract-based deductive verification: AST symbolic execution of the real methods + VC generation, z3/cvc5; bounded run-time contracts as labelled stand-in"),
+    "C17": dict(
+        category="proof",
+        text="coulomb_gaussian_s/p (both normalisations): radial Poisson identity (rV)'' = -4 pi r rho for the documented density, total charge "
+             "(value of rV with erf:=1, Gaussian:=0), r->0 constant = limit, element-wise dependence, argument validation; coulomb_potential = "
+             "coefficient-weighted sum for any number of centres (loop invariants over recursive spec sums, callee contracts used modularly). "
+             "Obligations are generated from the real AST and discharged by z3. The p-type Poisson obligations fail on the unchanged tree and are "
+             "matched to the recorded finding by a proved signature obligation. Bounded layer: 30-digit Coulomb integrals, all 118 elements.",
+        design="8/C17",
+        note=TRUST + "d/du erf(u), the limits erf(ar)/r -> 2a/sqrt(pi), erf -> 1, r^k exp(-a r^2) -> 0, closed-form Gaussian moments; laws of real powers on positive bases.",
+        technique="contract-based deductive verification: AST symbolic execution + differentiation operator + atom abstraction, z3/cvc5; bounded multiprecision run-time contracts as labelled stand-in"),
 }
 NOT_YET = {}
 
